@@ -1,6 +1,6 @@
 """C13: check configuration (PROPS_ENTRY, consumed by ./check and gen_manifest.py) and the list of lemmas that make up
 the property file (SPEC_ENTRY, consumed by tools/mkprops.py)."""
-PROPS_ENTRY = {'models': ['Model/Config.v', 'Model/ConfigSpec.v'],
+PROPS_ENTRY = {'models': ['Model/Config.v', 'Model/ConfigSpec.v', 'Model/InputCfg.v', 'Model/InputCfgSpec.v'],
  'design_ref': 'DESIGN.md 3 C13',
  'assumptions': ['device model of the untorn-read theorem: configuration memory is replaced atomically and EVERY change bumps the generation counter by one '
                  '(VirtIO 1.2 4.1.4.3.1 / 4.2.2.1 only demand a changed generation once the driver has read a changed field; a device that bumps lazily '
@@ -16,7 +16,15 @@ PROPS_ENTRY = {'models': ['Model/Config.v', 'Model/ConfigSpec.v'],
                  'conjunct of the monitor',
                  'size_of::<T>() <= 64 in the executable model (fuel of the splitting recursion); the drivers use 1, 2, 4 and 6 bytes',
                  'a closure handed to read_consistent only reads configuration space through the transport (a tree of register reads whose continuation '
-                 'gets the value read); panics inside the closure unwind through the loop'],
+                 'gets the value read); panics inside the closure unwind through the loop',
+                 'VirtIOInput configuration queries (Model/InputCfg.v, C13_input_*): the device is an answer stream - EVERY read, the size byte included, is '
+                 'answered with an arbitrary value - or, for the tearing statements, configuration memory with scheduled updates; the windows are those of '
+                 'the two transports with any length (win_ok); allocation of the result buffer (at most 128 bytes) succeeds',
+                 'VirtIOInput reads size and data WITHOUT read_consistent: C13_input_untorn_refuted is a machine-checked witness of a torn name(); this is '
+                 'recorded as an observation, not claimed as a violation (input.rs is not among the users the property text lists, a VirtIO input device '
+                 'changes its configuration only in answer to the driver\'s own select / subsel writes, and the repair is not a one-liner: '
+                 'corpus/proposals/input_cfg_untorn_fix.diff, not applied); scenarios c13-input-torn-* show it on the real code '
+                 '(correspondence 1323; monitor 1324 only with VERIF_INPUTCFG_OBSERVATIONS=1)'],
  'trusted_extra': ['safe-mmio 0.3.1 MmioOps::{read,write,read_slice,write_slice}: sizes 1/2/4/8 are ONE access whatever the alignment of T, anything else is '
                    'split by the alignment of the actual pointer (transcribed in Model/Config.v chunks/slice_chunks); the harness replaces the backend by a '
                    'logging one (custom-mmio), so offset, width, order and value of every access of the real transports are observed, not assumed',
@@ -28,10 +36,15 @@ PROPS_ENTRY = {'models': ['Model/Config.v', 'Model/ConfigSpec.v'],
                    'model of their constructors; the closure replicas in the harness (direct read_consistent scenarios) are copies of the driver code',
                    'String::from_utf8 is modelled by utf8_valid (Unicode table 3-7), tied by the 9p scenarios (valid, overlong, surrogate, > U+10FFFF, '
                    'truncated sequences)',
-                   'not executed: the x86-64 pKVM HypPciTransport (src/transport/x86_64.rs) implementations of the three methods']}
+                   'not executed: the x86-64 pKVM HypPciTransport (src/transport/x86_64.rs) implementations of the three methods',
+                   'VirtIOInput queries (scen/c13_input.rs): the real VirtIOInput over ModelTransport and over the real MmioTransport (legacy / modern) and '
+                   'PciTransport on the emulated register file of scen/c13.rs, device-chosen size bytes 0, 1, 7, 8, 9, 19, 20, 21, 127, 128, 129, 255 and random, '
+                   'random data, windows that hold the structure and windows that end inside it; kind 1320 predicts every access and result, monitors 1321 '
+                   '(5.8.5 protocol on the 5.8.4 layout, at most min(size, 128) data bytes, all inside the 136-byte structure) and 1322 (value = what the '
+                   'specification says for the size and bytes the device answered) are evaluated on the observed accesses']}
 
 SPEC_ENTRY = {'title': 'Config-space access is bounds-checked and multi-field reads are never torn',
- 'imports': ['Model.Config', 'Model.ConfigSpec', 'Proofs.ConfigProofs'],
+ 'imports': ['Model.Config', 'Model.ConfigSpec', 'Proofs.ConfigProofs', 'Model.Input', 'Model.InputCfg', 'Model.InputCfgSpec', 'Proofs.InputCfgProofs'],
  'theorems': [('C13_length_test_exact',
                'Proofs/ConfigProofs.v',
                'end_check_exact',
@@ -120,7 +133,30 @@ SPEC_ENTRY = {'title': 'Config-space access is bounds-checked and multi-field re
                'Proofs/ConfigProofs.v',
                'untorn_b_sound',
                'what a true untorn monitor (kind 1311) means on ANY observed event list'),
-              ('C13_snapshot_monitor_meaning', 'Proofs/ConfigProofs.v', 'some_snapshot_b_sound', 'kind 1312')],
+              ('C13_snapshot_monitor_meaning', 'Proofs/ConfigProofs.v', 'some_snapshot_b_sound', 'kind 1312'),
+              # ---- VirtIOInput configuration queries (Model/InputCfg.v against Model/InputCfgSpec.v = VirtIO 1.2 5.8.4 / 5.8.5)
+              ('C13_input_conform', 'Proofs/InputCfgProofs.v', 'ic_query_conform',
+               'query_config_select / name / serial_number / ids / prop_bits / ev_bits / abs_info (with the repair), every transport and window, both profiles, EVERY answer stream of the device (size byte included): the accesses are a prefix of write select, write subsel, read size, read u[0], u[1], ... with the caller\'s values, at most min(size, 128) data bytes, all inside the 136-byte structure and inside the window; the value returned is the specification\'s for the size and bytes the device answered'),
+              ('C13_input_full_window', 'Proofs/InputCfgProofs.v', 'ic_query_full_window',
+               'on a window that holds the structure no transport error is possible: the result IS spec_query_result of (size answered, data bytes answered): strings = the bytes up to size (IoError unless UTF-8), bitmaps = the bytes up to size, ids / abs_info = the little-endian fields at their positions (IoError unless size is 8 / 20), size > 128 = IoError without any data read'),
+              ('C13_input_access_monitor_meaning', 'Proofs/InputCfgProofs.v', 'ics_protocol_sound',
+               'what a true monitor 1321 means on ANY observed access list: nothing is read before select and subsel are written with the caller\'s values, every access lies inside the 136 bytes at a field of 5.8.4, at most min(size, 128) bytes of u are read: bytes 8 .. 8+k-1 in order'),
+              ('C13_input_value_monitor_meaning', 'Proofs/InputCfgProofs.v', 'ics_result_sound',
+               'what a true monitor 1322 means: no panic; a transport error, or the specification\'s result for the size and bytes the device answered, a value only after exactly its bytes were read'),
+              ('C13_input_data_loop', 'Proofs/InputCfgProofs.v', 'bytes_run',
+               'the data loop for EVERY window: single-byte reads of u[i], u[i+1], ... each inside the window, never more than n; it ends with the bytes answered or at the first byte the window does not hold, without touching it'),
+              ('C13_input_writes', 'Proofs/InputCfgProofs.v', 'writes_run', 'select at offset 0, then subsel at offset 1, one byte each; a refused write stops the query'),
+              ('C13_input_select_prefix_refuted', 'Proofs/InputCfgProofs.v', 'ic_select_prefix_refuted',
+               'the code before the repair: a device announcing size 255 makes query_config_select (slice of 255 bytes) read offsets 136 .. 262, beyond the structure, and hand those bytes out as data; the repaired code answers IoError after the size read'),
+              ('C13_input_prefix_partial', 'Proofs/InputCfgProofs.v', 'ic_query_prefix_partial',
+               'what was true before the repair: whenever the device announces at most 128 bytes the old code is the repaired one, access for access'),
+              ('C13_input_untorn_refuted', 'Proofs/InputCfgProofs.v', 'ic_untorn_refuted',
+               'OBSERVATION: size and data are not read under one configuration generation: name() against a device that installs a new image (generation bumped) before the read of u[1] returns "ad", a value neither image ("ab", "cd") yields; no generation read is made'),
+              ('C13_input_consistent_untorn', 'Proofs/InputCfgProofs.v', 'ic_consistent_untorn',
+               'what the proposed (not applied) repair would give: the same reads inside read_consistent are the reads evaluated on ONE exposed image, for every query, device state and schedule (instance of C13_untorn)'),
+              ('C13_input_consistent_on_witness', 'Proofs/InputCfgProofs.v', 'ic_consistent_on_witness', None),
+              ('C13_input_nonvacuous', 'Proofs/InputCfgProofs.v', 'ic_query_nonvacuous',
+               'concrete runs: name, non-UTF-8 name, ids, ids with size 7, abs_info on PCI, ev_bits with size 0, sizes 128 / 129, a window ending inside the union, PCI without the capability')],
  'examples': ['Example C13_bounds_nonvacuous :\n'
               '  let w := mkWin true 8 0x1100 in\n'
               '  6 <= MAX_T /\\ win_ok TModern w /\\ w_base w mod 4 = 0 /\\ w_base w + spec_window TModern w < two64 /\\\n'
